@@ -1,0 +1,33 @@
+//go:build verif
+
+package util
+
+// VerifRand, VerifShuffle and VerifRandomBytes let the deterministic simulation
+// harness replace the package's random source. They only exist in builds with
+// the "verif" tag; nil means "use the normal source".
+var (
+	VerifRand        func(n int) (int, bool)
+	VerifShuffle     func(n int, swap func(i, j int)) bool
+	VerifRandomBytes func() []byte
+)
+
+func verifRand(n int) (int, bool) {
+	if f := VerifRand; f != nil {
+		return f(n)
+	}
+	return 0, false
+}
+
+func verifShuffle(n int, swap func(i, j int)) bool {
+	if f := VerifShuffle; f != nil {
+		return f(n, swap)
+	}
+	return false
+}
+
+func verifRandomBytes() []byte {
+	if f := VerifRandomBytes; f != nil {
+		return f()
+	}
+	return nil
+}
